@@ -382,9 +382,9 @@ func (in *interp) holds(c Cond) bool {
 		cmp = 2
 	}
 	switch c.Op {
-	case "==":
+	case "==", "===":
 		return cmp == 0
-	case "!=":
+	case "!=", "!==":
 		return cmp != 0
 	case "<":
 		return cmp == -1
